@@ -1,0 +1,73 @@
+//! Verification hooks. Only compiled with `--cfg lace_verif`; inert unless armed by a harness.
+//!
+//! - typed exit: lets an in-process harness observe `std::process::exit` calls of the runtime as an
+//!   unwinding payload instead of losing the process;
+//! - fuel: a deterministic bound on iterations of the run loop;
+//! - counters: run-loop iterations and executed instructions.
+
+use std::cell::Cell;
+use std::io::Write as _;
+
+thread_local! {
+    static EXIT_ARMED: Cell<bool> = const { Cell::new(false) };
+    static FUEL: Cell<Option<u64>> = const { Cell::new(None) };
+    static TICKS: Cell<u64> = const { Cell::new(0) };
+    static EXECS: Cell<u64> = const { Cell::new(0) };
+}
+
+/// Payload raised instead of `std::process::exit(code)` when armed.
+#[derive(Debug, Clone, Copy)]
+pub struct VerifExit(pub i32);
+
+/// Payload raised when the run loop has used up its fuel.
+#[derive(Debug, Clone, Copy)]
+pub struct VerifOutOfFuel;
+
+/// Arm/disarm the typed exit for the current thread.
+pub fn arm_exit(armed: bool) {
+    EXIT_ARMED.with(|cell| cell.set(armed));
+}
+
+/// Called immediately before each `std::process::exit` of the runtime.
+pub fn exit_hook(code: i32) {
+    if EXIT_ARMED.with(|cell| cell.get()) {
+        let _ = std::io::stdout().flush();
+        std::panic::resume_unwind(Box::new(VerifExit(code)));
+    }
+}
+
+/// Set (or clear) the run-loop fuel for the current thread and reset the counters.
+pub fn set_fuel(fuel: Option<u64>) {
+    FUEL.with(|cell| cell.set(fuel));
+    TICKS.with(|cell| cell.set(0));
+    EXECS.with(|cell| cell.set(0));
+}
+
+/// Called at the top of every iteration of the run loop.
+pub fn tick() {
+    let ticks = TICKS.with(|cell| {
+        cell.set(cell.get() + 1);
+        cell.get()
+    });
+    if let Some(fuel) = FUEL.with(|cell| cell.get()) {
+        if ticks > fuel {
+            let _ = std::io::stdout().flush();
+            std::panic::resume_unwind(Box::new(VerifOutOfFuel));
+        }
+    }
+}
+
+/// Called for every executed instruction.
+pub fn count_exec() {
+    EXECS.with(|cell| cell.set(cell.get() + 1));
+}
+
+/// Iterations of the run loop since the last `set_fuel`.
+pub fn ticks() -> u64 {
+    TICKS.with(|cell| cell.get())
+}
+
+/// Instructions executed since the last `set_fuel`.
+pub fn execs() -> u64 {
+    EXECS.with(|cell| cell.get())
+}
